@@ -596,6 +596,16 @@ Lemma worker_died_count j c who w : pc j (worker_died c who w) = pc j w.
 Proof.
   unfold worker_died. destruct (lookup who (by_actor w)) as [wid|]; [|reflexivity].
   destruct (lookup wid (pool w)) as [p|] eqn:L; [|reflexivity].
+  destruct (w_drain p && match w_queue p with [] => true | _ => false end) eqn:RT.
+  { apply andb_prop in RT. destruct RT as [_ RT].
+    assert (Q : w_queue p = []) by (destruct (w_queue p); [reflexivity|discriminate]).
+    pose proof (on_avail_same c wid false w) as S.
+    set (w0 := on_avail c wid false w) in *.
+    assert (Hp : pool w0 = pool w) by (destruct S as (_ & Hp & _); exact Hp).
+    assert (L0 : lookup wid (pool w0) = Some p) by (rewrite Hp; assumption).
+    rewrite <- Hp.
+    transitivity (pc j (set_pool (remove_key wid (pool w0)) w0)); [reflexivity|].
+    rewrite (remove_worker_count j wid p w0 L0 Q). apply same_places_pc. assumption. }
   cbv zeta.
   set (w1 := set_actors (actors w ++ [(next_aid w, new_actor wid)]) (set_next_aid (next_aid w + 1) w)).
   assert (P1 : pc j w1 = pc j w).
